@@ -216,4 +216,8 @@ theorem ownership_invariant (ops : List Op) : Owned (run Gen.collectMapSkipsFirs
 example : (run false [.call 2 [], .collect 0]).pool = [0, 1, 0] := by decide
 example : (run true [.call 2 [], .collect 0]).pool = [0, 1] := by decide
 
+/-- nothing a call could leave behind on the SCHEMA either: executions write no schema object and no
+    package-level variable, and the closures a schema is made of keep no state (regenerated go/ast facts) -/
+theorem schemas_carry_nothing_over : Gen.schemaWrites = [] ∧ Gen.closureWrites = [] := by decide
+
 end Zog.Props.C07
